@@ -243,6 +243,8 @@ func modTargetCovers(env *Env, m Clause, ref, off, n *Term) (t *Term, err error)
 				sz := sizeOf(v.T.Underlying().(*types.Slice).Elem())
 				return And(Eq(ref, v.Ref), Le(v.Off, off), Le(Add(off, n), Add(v.Off, Mul(IntLit(sz), v.Len)))), nil
 			}
+			// *s : the whole backing array of the slice (including spare capacity)
+			return Eq(ref, v.Ref), nil
 		case VPtr:
 			pt := v.T.Underlying().(*types.Pointer).Elem()
 			return And(Eq(ref, v.Ref), Le(v.Off, off), Le(Add(off, n), Add(v.Off, IntLit(sizeOf(pt))))), nil
